@@ -34,7 +34,7 @@ def enc(x: float) -> Dict[str, int]:
 def universe(ids: List[str]) -> Dict[str, int]:
     u = set(ids)
     layer = set(ids)
-    for _ in range(3):
+    for _ in range(5):
         layer = {"c::" + x for x in layer}
         u |= layer
     return {x: i + 1 for i, x in enumerate(sorted(u))}
@@ -243,7 +243,7 @@ def corrupt(trace, kind: str, tidn: int):
 def check(run) -> None:
     from ..tlc import TLCError
     q = run.quick
-    n, steps = (64, 60) if q else (3000, 160)
+    n, steps = (64, 60) if q else (2000, 160)
     tol = sorted(e["signature"].get("cause") for e in run.known
                  if e.get("status") == "open" and e["signature"].get("clause") == "WithinClamp" and e["signature"].get("cause"))
     args = [(run.seed, i + 1, steps, tuple(tol), None) for i in range(n)]
